@@ -64,6 +64,14 @@ type group struct {
 	obs    []*Oblig
 }
 
+// outDir: where evidence and replays are written (selftests redirect it).
+func outDir() string {
+	if d := os.Getenv("VERIF_OUT"); d != "" {
+		return d
+	}
+	return verifDir()
+}
+
 func verifDir() string {
 	if d := os.Getenv("VERIF_DIR"); d != "" {
 		return d
@@ -631,9 +639,9 @@ func checkProperty(id, tier string) int {
 	if prop.Level != "" {
 		ev.Level = prop.Level
 	}
-	os.MkdirAll(filepath.Join(verifDir(), "evidence"), 0o755)
+	os.MkdirAll(filepath.Join(outDir(), "evidence"), 0o755)
 	b, _ := json.MarshalIndent(ev, "", " ")
-	if err := os.WriteFile(filepath.Join(verifDir(), "evidence", id+".json"), b, 0o644); err != nil {
+	if err := os.WriteFile(filepath.Join(outDir(), "evidence", id+".json"), b, 0o644); err != nil {
 		fmt.Fprintln(os.Stderr, "cannot write evidence:", err)
 		return 2
 	}
@@ -656,7 +664,7 @@ func seedFromEnv() int64 {
 }
 
 func writeReplay(id, name string, payload map[string]interface{}) string {
-	dir := filepath.Join(verifDir(), "replays", id)
+	dir := filepath.Join(outDir(), "replays", id)
 	os.MkdirAll(dir, 0o755)
 	safe := strings.NewReplacer("/", "_", " ", "_", "#", "_", ":", "_", "*", "", "(", "", ")", "", "[", "_", "]", "_", "$", "_", "~", "_", "\"", "", "'", "", "<", "", ">", "", "&", "", "|", "", ";", "", "`", "", "\\", "").Replace(name)
 	if len(safe) > 120 {
